@@ -2617,9 +2617,7 @@ where
         match v3_1_1::Connect::parse(raw_packet.data_as_slice()) {
             Ok((packet, _)) => {
                 self.initialize(false);
-                if packet.keep_alive() > 0 {
-                    self.pingreq_recv_timeout_ms = (packet.keep_alive() as u64) * 1000 * 3 / 2;
-                }
+                self.pingreq_recv_timeout_ms = (packet.keep_alive() as u64) * 1000 * 3 / 2;
                 if packet.clean_session() {
                     self.clear_store_related();
                 } else {
@@ -2664,9 +2662,7 @@ where
         match v5_0::Connect::parse(raw_packet.data_as_slice()) {
             Ok((packet, _)) => {
                 self.initialize(false);
-                if packet.keep_alive() > 0 {
-                    self.pingreq_recv_timeout_ms = (packet.keep_alive() as u64) * 1000 * 3 / 2;
-                }
+                self.pingreq_recv_timeout_ms = (packet.keep_alive() as u64) * 1000 * 3 / 2;
                 if packet.clean_start() {
                     self.clear_store_related();
                 }
